@@ -62,11 +62,14 @@ TAG_MAP.update(
 
 TYPE_MAP = decoder.TYPE_MAP.copy()
 
-# Put in non-ambiguous types for faster codec lookup
+# Put in non-ambiguous types for faster codec lookup. The inherited map
+# is already populated, so the codecs overridden above have to replace
+# the inherited entries, not just be added when missing.
 for typeDecoder in TAG_MAP.values():
     if typeDecoder.protoComponent is not None:
         typeId = typeDecoder.protoComponent.__class__.typeId
-        if typeId is not None and typeId not in TYPE_MAP:
+        if (typeId is not None and
+                TYPE_MAP.get(typeId).__class__ is not typeDecoder.__class__):
             TYPE_MAP[typeId] = typeDecoder
 
 
